@@ -144,7 +144,7 @@ def c15(pid, tier, replay):
     rng3 = random.Random(seed * 7 + 3)
     rng3.shuffle(cand)
     for i in cand[:(40 if thorough else 8)]:
-        mods.append((i["id"], i["y"], LANY, False))
+        mods.append(("sampled-" + i["id"], i["y"], LANY, False))      # (ids must differ from the fixed modules above)
     built_ok = 0
     for gi, (mid, ytext, ltext, eoc) in enumerate(mods):
         for k in range(4 if thorough else 3):
